@@ -1,7 +1,7 @@
 use super::*;
 use crate::{base, logging};
 use std::fs::File;
-use std::io::{BufRead, BufReader, Seek, SeekFrom};
+use std::io::{BufRead, BufReader, ErrorKind, Seek, SeekFrom};
 
 const MAX_ITEM_AMOUNT: usize = 100000;
 
@@ -48,7 +48,12 @@ impl DefaultMetricLogReader {
         let mut last_sec = last_sec;
         loop {
             let mut line = String::new();
-            let count = buf_reader.read_line(&mut line)?;
+            let count = match buf_reader.read_line(&mut line) {
+                Ok(count) => count,
+                // a torn tail can end inside a multi-byte character: skip what cannot be decoded
+                Err(err) if err.kind() == ErrorKind::InvalidData => continue,
+                Err(err) => return Err(err.into()),
+            };
             if count == 0 {
                 let should_continue = (prev_size + items.len()) < max_lines;
                 return Ok((items, should_continue));
@@ -93,7 +98,12 @@ impl DefaultMetricLogReader {
         let lines = buf_reader.lines();
 
         for line in lines {
-            let line = line?;
+            let line = match line {
+                Ok(line) => line,
+                // a torn tail can end inside a multi-byte character: skip what cannot be decoded
+                Err(err) if err.kind() == ErrorKind::InvalidData => continue,
+                Err(err) => return Err(err.into()),
+            };
             let item = match base::MetricItem::from_string(&line) {
                 Ok(item) => item,
                 Err(err) => {
